@@ -266,7 +266,7 @@ pub fn run(ctx: &Ctx, rep: &mut Report) {
     rep.prop(
         "grouping",
         "proptest: run lists (elevation, length) over patterns {empty, single run, single radial, random runs, strictly changing, a/b alternation, first/last run of one, up to 2000 radials}; non-trivial = >= 2 maximal runs or a final run of length 1",
-        ctx.tier.pick(150_000, 20_000_000),
+        ctx.tier.pick(1_000_000, 20_000_000),
         seq_strategy,
         |c| {
             let seq = c.expand();
@@ -289,7 +289,7 @@ pub fn run(ctx: &Ctx, rep: &mut Report) {
     rep.prop(
         "merge",
         "proptest: sweep pairs with arbitrary, duplicated, unsorted azimuth numbers, equal or different elevation numbers, either side possibly empty; non-trivial = >= 1 azimuth number occurring in both sweeps (tie order observable)",
-        ctx.tier.pick(150_000, 20_000_000),
+        ctx.tier.pick(1_000_000, 20_000_000),
         merge_strategy,
         |c| {
             let dup = c.az_a.iter().any(|a| c.az_b.contains(a));
